@@ -3,6 +3,7 @@ mod cfgs;
 mod edges;
 mod elem;
 mod exec;
+mod exec_range;
 mod galloc;
 mod mcmodel;
 mod track;
